@@ -112,7 +112,7 @@ func (h *Header) Contains(h2 *Header) bool {
 	for _, s2 := range h2.Stamps {
 		match := false
 		for _, s := range h.Stamps {
-			if s.Provider == s2.Provider && s.Value == s2.Value {
+			if s != nil && s2 != nil && s.Provider == s2.Provider && s.Value == s2.Value {
 				match = true
 				break
 			}
